@@ -102,3 +102,15 @@ add("C15",
     "CPython's own MRO from the current bases.",
     "stated_not_proved: the composition of setBases_memoOk's proviso with the Graph2 history invariant (it is the first conjunct of ZI.Prop.prop_spec).",
     "Lean 4 proof (dict-update lemma, memo invariant, C02 history invariant) + differential correspondence + statement oracle on CPython-MRO orders", "6/C15")
+add("C13",
+    "Theorems: C13_implements (after ANY history of specification-creating and declaration calls — inherited, implementer, classImplementsFirst, the *only* forms, "
+    "repeated in any order — the live specification of every class reduces to implementedBy(<that class>), so unpickling returns the identical object), inv_run / "
+    "inv_step (the invariant behind it), C13_pinned_violates (kernel-checked: the pinned code reduced *only*-declared classes to implementedBy(None)), "
+    "C13_names_only (a reduction can only carry global names and references). The reductions of class specifications and instance declarations are compared with the "
+    "model; every round trip (interfaces, class specifications, instance and class provides-declarations, carrying objects, providedBy results, the empty "
+    "declaration) is executed under protocols 0-5 on both twins in a generated importable module and judged for identity / same interfaces / equality / absence "
+    "of definition text in the pickle bytes.",
+    "Guards: G-settled (an instance declaration is pickled while the class declarations it was built against are unchanged: C01 allows a redundant interface to be "
+    "dropped when declared, which an unpickled copy built against later class declarations need not reproduce). Known finding classprovides-unpickle-not-equal. "
+    "CPython's pickle machinery is modelled, not verified.",
+    "Lean 4 proof (history invariant of the pickling state) + reduction correspondence + exhaustive-protocol round-trip oracle", "6/C13")
